@@ -6,10 +6,12 @@ import Isotp.Process
   Source agreement for the user-facing entry points of `TransportLayerLogic` that are not part of the rx / tx state machines:
 
   * A. `send` (`Src.TransportLayerLogic_send`) = `State.send`, FOR ALL STATES AND ARGUMENTS (`send_agrees`, `send_raises_iff`,
-       `send_enqueues`, `send_blocking_enqueues_then_raises`, `sendEnv_frame`);
+       `send_enqueues`, `send_nonblocking`, `send_blocking_enqueues_then_raises`, `sendEnv_frame`, `sendEnv_callback`);
   * B. `SendRequest.complete` (`complete_agrees`, `complete_records_done`);
-  * C. `set_address` (`set_address_sym_agrees` = `mkSym`, `set_address_asym_agrees`, `set_address_rejects_non_address`);
-  * D. `load_params` (`load_params_agrees`).
+  * C. `set_address` (`set_address_agrees`; `set_address_sym_agrees` = `mkSym`, `set_address_asym_agrees`,
+       `set_address_rejects_non_address`);
+  * D. `load_params` (`load_params_agrees`, relative to the float conversions of the two constructors, which are not in the dump);
+  * E. `FiniteByteGenerator.__init__` (`fbg_init_agrees`, `sendMeths_ctor_is_fbg_init`); the three accessors are in LayerTxHelpers.lean.
 
   All the machinery lives in the namespace `Isotp.PyAgree.Send` so that the generic names cannot clash with the other agreement files.
 -/
@@ -177,7 +179,9 @@ def sendMeths (s : State) (a : State.SendArgs) : Meths where
     | "self.post_send_callback", [v] => .ok (env.set "#cb" v)
     | n, _ => .error (.unsupported ("call " ++ n))
 
-/-- what `send` reads: its arguments and the attributes of `self`, in state `s` -/
+/-- what `send` reads: its arguments and the attributes of `self`, in state `s`.  The member `Functional` is read through the path
+    `isotp.address.TargetAddressType.Functional`, which `Src.consts` does not list (it has the same member under
+    `TargetAddressType.Functional`: `tatValue_dumped`), so it is a hypothesis here. -/
 structure SendEnv (s : State) (a : State.SendArgs) (cb : Bool) (targ dv : PV) (env : Env) : Prop where
   tatv : env "target_address_type" = some targ
   tatArg : TatArg a.tat targ
@@ -577,6 +581,13 @@ theorem send_enqueues (s : State) (a : State.SendArgs) (cb : Bool) (targ dv : PV
   have hr : ¬ Rejected s a := fun hr => h ((rejected_iff s a).mp hr)
   refine ⟨?_, sendEnv_txq s a cb env hr, sendEnv_frame s a cb env⟩
   rw [prefix_run s a cb targ dv env hE, if_neg hr]
+
+/-- an installed callback is called with the request, AFTER it was enqueued (`sendEnv`: `#cb` is written last; `Send.stmt7` runs in the
+    environment `Send.stmt6` = `put` leaves), and is not called otherwise -/
+theorem sendEnv_callback (s : State) (a : State.SendArgs) (env : Env) :
+    sendEnv s a true env "#cb" = some (reqPV a.id a.size (Send.tatOf s a)) ∧ sendEnv s a false env "#cb" = env "#cb" :=
+  ⟨by simp [sendEnv, set_get],
+   by cases hb : s.cfg.blocking <;> cases ht : tatOf s a <;> simp [sendEnv, env4, hb, ht, set_get]⟩
 
 /-- non-blocking: the call returns `None` in that environment -/
 theorem send_nonblocking (s : State) (a : State.SendArgs) (cb : Bool) (targ dv : PV) (env : Env) (hE : SendEnv s a cb targ dv env)
@@ -1108,5 +1119,31 @@ theorem sendMeths_ctor_is_fbg_init (s : State) (a : State.SendArgs) (dv gen : PV
     simp [hc, this, h0]
   · have h0 : 0 ≤ a.size := by omega
     simp [hc, this, h0]
+
+#print axioms Isotp.PyAgree.send_split
+#print axioms Isotp.PyAgree.send_model_outcomes
+#print axioms Isotp.PyAgree.send_agrees
+#print axioms Isotp.PyAgree.send_raises_iff
+#print axioms Isotp.PyAgree.send_rejected_state
+#print axioms Isotp.PyAgree.send_accepted_state
+#print axioms Isotp.PyAgree.send_enqueues
+#print axioms Isotp.PyAgree.sendEnv_frame
+#print axioms Isotp.PyAgree.sendEnv_callback
+#print axioms Isotp.PyAgree.send_nonblocking
+#print axioms Isotp.PyAgree.send_blocking_enqueues_then_raises
+#print axioms Isotp.PyAgree.sendEnvOf_ok
+#print axioms Isotp.PyAgree.complete_agrees
+#print axioms Isotp.PyAgree.complete_records_done
+#print axioms Isotp.PyAgree.setAddrMeths_partial_is_source
+#print axioms Isotp.PyAgree.Send.reserved_test
+#print axioms Isotp.PyAgree.set_address_agrees
+#print axioms Isotp.PyAgree.set_address_sym_agrees
+#print axioms Isotp.PyAgree.set_address_asym_agrees
+#print axioms Isotp.PyAgree.set_address_rejects_non_address
+#print axioms Isotp.PyAgree.setAddrEnv_frame
+#print axioms Isotp.PyAgree.load_params_agrees
+#print axioms Isotp.PyAgree.loadEnv_shows
+#print axioms Isotp.PyAgree.fbg_init_agrees
+#print axioms Isotp.PyAgree.sendMeths_ctor_is_fbg_init
 
 end Isotp.PyAgree
